@@ -14,7 +14,9 @@ Ok(e) == e.res = "ok"
 LayoutVerdict(e) ==
     IF ~Ok(e) THEN {}
     ELSE (IF Sorted(e.entries) THEN {} ELSE {"Inv_C12_Sorted"})
-         \cup (IF \A x \in ToSet(e.entries) : InSlot(x) THEN {} ELSE {"Inv_C12_InSlot"})
+         \cup (IF \A x \in ToSet(e.entries) : InSlot(x) THEN {}
+               \* the known way this fails: a sub-word taken of a sub-word beyond the inner one's width
+               ELSE IF e.keys.nested_masks THEN {"Inv_C12_InSlot/nested-subword"} ELSE {"Inv_C12_InSlot"})
          \cup (LET failing == {i \in 1..Len(e.vars) : ~Expected(e.vars[i], e.entries)} IN
                IF failing = {} THEN {}
                \* the known way this fails: a packed variable that is only ever written
